@@ -202,6 +202,9 @@ pub enum AttemptKind {
     FailAtRequest(usize),
     /// the session is established, then the server closes the connection instead of answering this request
     CloseAtRequest(usize),
+    /// the job panics at its connection attempt (a bug somewhere below Updater::run): for the
+    /// daemon that is one more failed run
+    Panic,
 }
 
 #[derive(Clone, Debug)]
@@ -1012,6 +1015,7 @@ pub fn connector(sh: Sh) -> agent::verif::Connector<ATransport> {
                 Refuse,
                 RefuseAfter(usize, u64),
                 Session(usize),
+                Panic,
             }
             let step = {
                 let mut g = sh.lock().unwrap();
@@ -1027,6 +1031,9 @@ pub fn connector(sh: Sh) -> agent::verif::Connector<ATransport> {
                     g.junos.refuse_connections -= 1;
                     g.junos.attempt_end[attempt] = Some((t, true));
                     Step::Refuse
+                } else if let Some(AttemptPlan { kind: AttemptKind::Panic, .. }) = plan {
+                    g.junos.attempt_end[attempt] = Some((t, true));
+                    Step::Panic
                 } else if let Some(AttemptPlan { kind: AttemptKind::FailConnect, connect_ms, .. }) = plan {
                     Step::RefuseAfter(attempt, connect_ms)
                 } else {
@@ -1041,6 +1048,7 @@ pub fn connector(sh: Sh) -> agent::verif::Connector<ATransport> {
             };
             let sid = match step {
                 Step::Refuse => return Err(anyhow::anyhow!("simulated: connection refused")),
+                Step::Panic => panic!("simulated: the update job panics"),
                 Step::RefuseAfter(attempt, ms) => {
                     if ms > 0 {
                         tokio::time::sleep(Duration::from_millis(ms)).await;
